@@ -332,8 +332,17 @@ class SymEval(Flow):
         return Obj(fresh('bool'))
 
     def ev_BoolOp(self, e, st):
-        for x in e.values:
-            self.ev(x, st)
+        # short circuit: operand i is evaluated only if the operands before it were all true (and) /
+        # all false (or); those facts hold while it is evaluated
+        is_and = isinstance(e.op, ast.And)
+        cur = st
+        for i, x in enumerate(e.values):
+            self.ev(x, cur)
+            if i + 1 < len(e.values):
+                nxt = cur.copy() if cur is st else cur
+                for f in self.cond_facts(x, nxt, is_and):
+                    nxt.facts = nxt.facts.add(f)
+                cur = nxt
         return Obj(fresh('bool'))
 
     def ev_JoinedStr(self, e, st):
@@ -598,6 +607,9 @@ class SymEval(Flow):
                 lo = self.as_int(args[1], st)
                 if lo is not None:
                     st.facts = st.facts.add_disj([[a - lo], [a + 1, -a - 1]])
+                    self.searches.append((e, lo, n, Aff.const(-1), a, st))
+            elif name == 'find' and len(args) == 1 and n is not None:
+                self.searches.append((e, Aff.const(0), n, Aff.const(-1), a, st))
             return Int(a)
         if name == 'partition' and len(args) == 1:
             n = self.length(recv, st)
@@ -634,9 +646,19 @@ class SymEval(Flow):
         if isinstance(t, ast.UnaryOp) and isinstance(t.op, ast.Not):
             return self.cond_facts(t.operand, st, not truth)
         if isinstance(t, ast.BoolOp):
-            if isinstance(t.op, ast.And) and truth or isinstance(t.op, ast.Or) and not truth:
-                for v in t.values:
-                    out += self.cond_facts(v, st, truth)
+            is_and = isinstance(t.op, ast.And)
+            collecting = is_and == truth
+            cur = st
+            for i, v in enumerate(t.values):
+                # facts of operand i, computed in a state in which the operands before it hold (and) / fail (or)
+                fs = self.cond_facts(v, cur, is_and)
+                if collecting:
+                    out += fs
+                if i + 1 < len(t.values):
+                    nxt = cur.copy() if cur is st else cur
+                    for f in fs:
+                        nxt.facts = nxt.facts.add(f)
+                    cur = nxt
             return out
         if isinstance(t, ast.Compare) and len(t.ops) > 1:
             if truth:
